@@ -376,9 +376,10 @@ def self_check_plate_addresses(run, b, i, text, body, rstep, mb, ma, solvent, ke
     for r, rl in enumerate(rows):
         for c, cl in enumerate(cols):
             names.setdefault(f"{rl}{cl}", []).append((r, c))
-    if any(len(v) > 1 for v in names.values()):
-        b.stats['instr:skipped'] += 1        # concatenated labels are ambiguous on this plate
-        return
+    if any(len(v) > 1 for v in names.values()) or \
+            any(str(x) != str(x).strip() or ',' in str(x) or ':' in str(x) for x in list(rows) + list(cols)):
+        b.stats['instr:skipped'] += 1        # concatenated labels are ambiguous on this plate (or cannot be told apart in a
+        return                               # comma-separated list: blanks around a label)
     told = {}
     for shown, unit, addr in re.findall(NUM + r' (\S+) to \[([^\]]*)\]', body):
         try:
